@@ -17,10 +17,14 @@ from . import common, coqterm
 from .c04 import fresh_schema_name
 from .coqterm import coq_list, coq_string, coq_Z
 
-C13_FILES = ["Properties/C13.v", "Proofs/DirectiveProofs.v"]
+C13_FILES = ["Properties/C13.v", "Proofs/DirectiveProofs.v", "Proofs/DirectiveOutProofs.v"]
 HOOKS = ["on_post_input_coercion", "on_argument_execution", "on_field_execution", "on_pre_output_coercion"]
 LOCS = ("SCALAR | OBJECT | INPUT_OBJECT | INPUT_FIELD_DEFINITION | ARGUMENT_DEFINITION | FIELD_DEFINITION | FIELD | ENUM | "
         "ENUM_VALUE")
+
+
+OBJ_RESOLVED = {"v": "s", "vs": ["s", None, "t"]}
+OBJS_RESOLVED = [{"v": "s"}, None, {"v": "t"}]
 
 
 def tag_value(name, v):
@@ -235,11 +239,11 @@ async def run_schema(pool, P, cases):
 
     @Resolver("Query.obj", schema_name=name)
     async def obj(parent, args, ctx, info):     # pylint: disable=unused-variable
-        return {"v": "s", "vs": ["s", None, "t"]}
+        return json.loads(json.dumps(OBJ_RESOLVED))
 
     @Resolver("Query.objs", schema_name=name)
     async def objs(parent, args, ctx, info):    # pylint: disable=unused-variable
-        return [{"v": "s"}, None, {"v": "t"}]
+        return json.loads(json.dumps(OBJS_RESOLVED))
 
     engine = await create_engine(sdl_of(pool, P), schema_name=name)
     out = []
@@ -310,8 +314,31 @@ def cases_file(pool, P, items):
         rows.append("(%s, %s, (%s, %s, %s, %s), %s)" % (
             decls, args, dinst_coq(pool, c["qdirs"]), dinst_coq(pool, P["Query.echo"]), dinst_coq(pool, P["Tg"]),
             tval_coq(data.get("echo")), post))
+    def oty_tg():
+        return "(OScalar %s)" % dinst_coq(pool, P["Tg"])
+
+    def oty_out(fields):
+        return "(OObject %s %s)" % (dinst_coq(pool, P["Out"]), coq_list(
+            ["(%s, %s, %s)" % (coq_string(fn), dinst_coq(pool, P["Out." + fn]), ft) for fn, ft in fields]))
+    orows = []
+    for c, o in items:
+        data = o["response"].get("data") or {}
+        parts = [
+            "(%s, %s, TLeaf \"r\")" % (dinst_coq(pool, c["qdirs"] + P["Query.echo"]), oty_tg()),
+            "(%s, %s, %s)" % (dinst_coq(pool, P["Query.obj"]), oty_out([("v", oty_tg()), ("vs", "(OListOf %s)" % oty_tg())]),
+                              tval_coq(OBJ_RESOLVED)),
+            "(%s, (OListOf %s), %s)" % (dinst_coq(pool, P["Query.objs"]), oty_out([("v", oty_tg())]), tval_coq(OBJS_RESOLVED))]
+        obs = [tval_coq(data.get("echo")), tval_coq(data.get("obj")), tval_coq(data.get("objs"))]
+        pre = coq_list(["(%s, %s)" % (coq_string(d), coq_Z(n)) for d, h, n in o["log"] if h == "on_pre_output_coercion"])
+        orows.append("(%s, %s, %s)" % (coq_list(parts), coq_list(obs), pre))
     L = [coqterm.HEADER,
-         "From TV Require Import Model.Schema Model.Directives Model.RunDirectives Model.RunValidate.\n",
+         "From TV Require Import Model.Schema Model.Directives Model.RunDirectives Model.RunValidate Model.DirectivesOut "
+         "Model.RunDirectivesOut.\n",
+         "Definition ocases : list (list opart * list tval * list (string * Z)) := %s.\n" % coq_list(orows),
+         'Eval vm_compute in ("outtree_mismatch", idx_where\' (fun c => match c with (parts, obs, _) => '
+         "negb (forallb (fun po => out_tree_agree (fst po) (snd po)) (combine parts obs)) end) ocases 0).\n",
+         'Eval vm_compute in ("outlog_mismatch", idx_where\' (fun c => match c with (parts, _, lg) => '
+         "negb (pre_output_log_agree parts lg) end) ocases 0).\n",
          "Definition cases : list (list decl * list (list dinst * ity * tlit * tval) * "
          "(list dinst * list dinst * list dinst * tval) * list (string * Z)) := %s.\n" % coq_list(rows),
          'Eval vm_compute in ("arg_mismatch", idx_where\' (fun c => match c with (decls, args, _, _) => '
@@ -390,7 +417,7 @@ def main(tier_, replay=None):
     from . import engine_env
     rep = common.Report("C13")
     seed = common.seed()
-    b = common.build(["Properties/C13.vo", "Model/RunDirectives.vo", "Model/RunValidate.vo"])
+    b = common.build(["Properties/C13.vo", "Model/RunDirectives.vo", "Model/RunDirectivesOut.vo", "Model/RunValidate.vo"])
     gate = common.grep_gate()
     proofs_ok = b["ok"] and not gate
     engine_env.setup()
@@ -420,7 +447,11 @@ def main(tier_, replay=None):
             continue
         for label, why in (("arg_mismatch", "the value a resolver received differs from the model's hook composition"),
                            ("out_mismatch", "the field result differs from the model's hook composition"),
-                           ("log_mismatch", "post-input-coercion hooks were not invoked exactly once per governed value")):
+                           ("log_mismatch", "post-input-coercion hooks were not invoked exactly once per governed value"),
+                           ("outtree_mismatch", "the data of a field (nested object / list positions, null items included) differs "
+                                                "from the model's output hook composition"),
+                           ("outlog_mismatch", "on_pre_output_coercion hooks were not invoked exactly once per governed value "
+                                               "(null values and null list items included)")):
             for i in common.parse_Z_list(so, label) or []:
                 mism.append((pool, P, items[i][0], items[i][1], why))
     for pool, P, c, o, why in (viol + [(p, P, c, o, [w]) for p, P, c, o, w in mism])[:6]:
